@@ -327,6 +327,8 @@ class Check:
                 missing += 1
                 continue
             model_ok, prop_ok, guards = r
+            if guards:
+                self.cov["cases_in_a_known_finding_class"] = self.cov.get("cases_in_a_known_finding_class", 0) + 1
             if not prop_ok:
                 if guards and all(g in known_by_guard for g in guards):
                     for g in guards:
